@@ -143,11 +143,51 @@ def oracle(case, ob):
     return None
 
 
+F17 = "F17-propagate-stops-at-runnable-waiter"
+
+
+def signature(stream, case, msg):
+    """Known finding F17: PriorityTask.propagate_priority() stops at a waiter that is runnable (cancelled or
+    woken, but still queued because it has not run its `finally` yet), so the holders above it keep a stale
+    key.  A hand-over failure carries this signature iff, in the state just before the hand-over, the overtaken
+    task holds - directly or through the waiters of the locks it holds - a PriorityLock with a queued entry
+    whose future is no longer pending (the not-yet-departed waiter).  Any other hand-over failure has no
+    signature and is reported as a violation."""
+    import re
+    from .. import sched_lang as SL
+    m = re.match(r"after action (\d+) .*although task (\d+) ", msg or "")
+    if not m:
+        return None
+    k, t2 = int(m.group(1)), int(m.group(2))
+    try:
+        ob = SL.impl_sched(case)
+        before = ob[k - 1]
+    except Exception:
+        return None
+    seen, todo = set(), [t2]
+    while todo:
+        t = todo.pop()
+        if t in seen or t >= len(before[TASKS]):
+            continue
+        seen.add(t)
+        for l in before[TASKS][t][3]:
+            lk = before[LOCKS][l]
+            if lk[0] != 0:
+                continue
+            for (p, seq, fid) in lk[3][1]:
+                owners = [w for w, tk in enumerate(before[TASKS]) if tk[1] == fid and not tk[0]]
+                if before[FUTS][fid][0][0] != 0:
+                    return F17            # a departed-in-spirit waiter is still queued below the overtaken task
+                todo.extend(owners)
+    return None
+
+
 PROP = Prop(
     pid="C12",
     props_v="theories/Props/C12.v",
     theory_files=["theories/Sched/Model.v", "theories/Sched/Corr.v", "theories/Sched/InheritProofs.v"],
     streams=[make_stream("handover", gen, oracle)],
+    signature=signature,
     rule="the C11 generator (lock chains of length 1..4 with all priority pairs of late waiters; random programs with "
          "2..6 contenders, ties, ints/floats/Priority enum members, plain tasks, urgent late arrivals that raise a "
          "queued waiter's priority by inheritance; a task that already inherits priority when it begins to wait (all orders); waiters that leave by cancellation / task_throw while a queued "
